@@ -263,8 +263,18 @@ func (m *Machine) selectOp(fr *frame, instr *ssa.Select) Value {
 	}
 	// Let the other goroutines run first so that every producer has progressed as far as it
 	// can; then every merge order of ready inputs is reachable by forking on the choice.
+	rd0 := readyIdx()
 	m.yield()
 	rd := readyIdx()
+	if !instr.Blocking && len(rd0) == 0 && len(rd) > 0 && (!m.fixedSchedule || m.Params["NBFORK"] == 1) {
+		// A non-blocking select that found nothing ready when it was reached, while something
+		// became ready once the other goroutines had run: both outcomes are real schedules (taking
+		// the default branch has no effect on any channel, so "default, then the others run" and
+		// "the others run, then default" reach the same state).
+		if m.Choose("select.default", 2) == 1 {
+			return m.selectResult(instr, -1, nil, false)
+		}
+	}
 	if len(rd) == 0 {
 		if !instr.Blocking {
 			return m.selectResult(instr, -1, nil, false)
